@@ -690,7 +690,12 @@ def single_caller_helpers(facts, anchors, pinned):
         # possibly public, helper (`pub fn check_x(&self, ..)` used by the anchor and by a front end) is still looked through at
         # the anchor's call site
         all_sites = ss
-        ss = [(b, c) for (b, c) in ss if b.def_ in anchors and h is not None and _module(h.def_) == _module(facts.enclosing_fn(b))]
+        def _near(b):
+            if _module(h.def_) == _module(facts.enclosing_fn(b)):
+                return True
+            # a store method written for one front-end handler (`Store::import_frame` for POST /import): looked through there too
+            return h.def_.startswith("xs::store::Store::") and facts.enclosing_fn(b).startswith("xs::api::handle_")
+        ss = [(b, c) for (b, c) in ss if b.def_ in anchors and h is not None and _near(b)]
         partial = len(ss) != len(all_sites)
         if not ss:
             continue
@@ -702,7 +707,7 @@ def single_caller_helpers(facts, anchors, pinned):
             continue
         # only private helpers living in the anchors' own module ("extract function" refactors), never API items
         if any(_module(h.def_) != _module(facts.enclosing_fn(b)) for (b, c) in ss):
-            continue
+            partial = True
         if not (h.vis or "").startswith("Restricted"):
             if "<" in h.def_:
                 continue        # methods of generic / macro-generated types (typestate builders): rules read those calls as they are
@@ -711,8 +716,10 @@ def single_caller_helpers(facts, anchors, pinned):
             continue
         if any(cc.fn == fn for cc in h.calls()):
             continue   # recursive
-        if len(ss) > 1 and any(cc.fn == "fjall::batch::Batch::commit" for cc in h.calls()):
-            continue   # role: a shared function that commits a journal batch is a unit of atomicity - rules look at it as a function
+        if (partial or len({b.def_ for (b, c) in ss}) < len(ss)) and any(cc.fn == "fjall::batch::Batch::commit" for cc in h.calls()) \
+                and any(cc.fn == "fjall::keyspace::Keyspace::batch" for cc in h.calls()):
+            continue   # role: a function that builds AND commits a journal batch and is shared beyond the anchors (Store::remove and
+            #            the GC helpers calling one `remove_frame`) is a unit of atomicity - rules look at it as a function
         if any(cc.fn in ("std::time::SystemTime::now", "std::time::SystemTime::elapsed", "std::time::Instant::now") for cc in h.calls()):
             continue   # role: a predicate that reads the clock (rules reason about where the clock is read: keep the call visible)
         if any(_is_key_constructor_site(b, c) for (b, c) in ss):
